@@ -3173,7 +3173,12 @@ pub fn matrix_column_elements(&mut self, column_elements: &[&MatrixColumn]) -> S
       RealNumber::Hexadecimal(token) => format!("0x{}", token.to_string()),
       RealNumber::Octal(token) => format!("0o{}", token.to_string()),
       RealNumber::Binary(token) => format!("0b{}", token.to_string()),
-      RealNumber::Scientific(((whole, part), (sign, ewhole, epart))) => format!("{}.{}e{}{}.{}", whole.to_string(), part.to_string(), if *sign { "-" } else { "+" }, ewhole.to_string(), epart.to_string()),
+      RealNumber::Scientific(((whole, part), (sign, ewhole, epart))) => {
+        // the exponent has a fractional part only if one was written: "1.5e3" must not become "1.5e+3."
+        let epart = epart.to_string();
+        let efrac = if epart.is_empty() { "".to_string() } else { format!(".{}", epart) };
+        format!("{}.{}e{}{}{}", whole.to_string(), part.to_string(), if *sign { "-" } else { "+" }, ewhole.to_string(), efrac)
+      },
       RealNumber::Rational((numerator, denominator)) => format!("{}/{}", numerator.to_string(), denominator.to_string()),
       RealNumber::TypedInteger((token, kind_annotation)) => {
         let num = token.to_string();
